@@ -142,17 +142,79 @@ theorem objects_unbounded_without_timeout (cfg : Config) (n : Nat) :
   obtain ⟨s, out, hr, _, _, _, hlen, _⟩ := obj_run cfg n
   exact ⟨s, out, hr, hlen⟩
 
-/-- **FDT document bytes: no bound in the code, none in the model** (finding recv-2).  The bytes an
-    FDT instance holds are the sum of everything its writer was handed; nothing caps or clears them:
-    every `write` of `len` bytes adds `len` ... -/
+/-- **FDT document bytes: bounded since repair 2037586** (was finding recv-2: no bound at all).  A
+    `write` of `len` bytes adds `len` bytes as long as the document stays within `MAX_FDT_SIZE`
+    (16 MiB), otherwise the writer refuses: the instance goes to `Error` and holds what it held. -/
 theorem fdt_bytes_accumulate (ans : FdtAns) (f : FdtRecv σ) (sbn len : Nat) :
-    (f.applyWEv ans (.write sbn len)).bytes = f.bytes + len := rfl
+    (f.applyWEv ans (.write sbn len)).bytes =
+      (if f.bytes + len > maxFdtSize then f.bytes else f.bytes + len) := by
+  simp only [FdtRecv.applyWEv]
+  split <;> rfl
 
-/-- ... so for every `n` an instance holding at least `n` bytes is reachable by one writer call
-    (negation witness of a configuration-only bound on the bytes of FDT instances). -/
-theorem fdt_bytes_unbounded (I : ObjIface σ) (ans : FdtAns) (id : Nat) (chk : Bool) (n : Nat) :
-    ((FdtRecv.new I id chk).applyWEvs ans [.write 0 n]).bytes = n := by
-  simp [FdtRecv.applyWEvs, FdtRecv.applyWEv, FdtRecv.new]
+theorem applyWEv_bytes_le (ans : FdtAns) (f : FdtRecv σ) (e : WEv) (h : f.bytes ≤ maxFdtSize) :
+    (f.applyWEv ans e).bytes ≤ maxFdtSize := by
+  cases e with
+  | complete =>
+    simp only [FdtRecv.applyWEv]
+    split
+    · exact h
+    · cases ans <;> exact h
+  | write sbn len =>
+    simp only [FdtRecv.applyWEv]
+    split
+    · exact h
+    · rename_i hn; simp only []; omega
+  | _ => exact h
+
+theorem applyWEvs_bytes_le (ans : FdtAns) (f : FdtRecv σ) (evs : List WEv) (h : f.bytes ≤ maxFdtSize) :
+    (f.applyWEvs ans evs).bytes ≤ maxFdtSize := by
+  induction evs generalizing f with
+  | nil => exact h
+  | cons e r ih =>
+    simp only [FdtRecv.applyWEvs, List.foldl_cons] at ih ⊢
+    exact ih _ (applyWEv_bytes_le ans f e h)
+
+theorem fdtPush_bytes_le (I : ObjIface σ) (f : FdtRecv σ) (p : Pkt) (now : Int) (ans : FdtAns)
+    (h : f.bytes ≤ maxFdtSize) : (f.push I p now ans).bytes ≤ maxFdtSize := by
+  have h0 : (f.observeSct p.sct now).bytes ≤ maxFdtSize := by
+    unfold FdtRecv.observeSct
+    cases p.sct with
+    | none => exact h
+    | some r => simp only []; split <;> exact h
+  unfold FdtRecv.push
+  simp only []
+  cases (f.observeSct p.sct now).obj with
+  | none => exact h0
+  | some o =>
+    simp only []
+    have h1 := applyWEvs_bytes_le ans _ (I.push o p).2 h0
+    split
+    · exact h1
+    · exact applyWEvs_bytes_le ans _ _ h1
+    · exact h1
+    · exact h1
+
+/-- **fdt_bytes_bounded.**  In every state of every history, every FDT instance - under reception or
+    one of the (at most 10) current ones - holds at most `MAX_FDT_SIZE` bytes of document: the bytes of
+    the CURRENT instances are bounded by a constant of the code, 10 × 16 MiB (with `fdt_current_bounded`).
+    (The NUMBER of instances under reception is linear in the datagrams since the last cleanup that
+    found them stale: `registries_linear_in_datagrams`.) -/
+theorem fdt_bytes_bounded (I : ObjIface σ) (cfg : Config) (ops : List Op)
+    (tr : List (Op × State σ × Res × List Ev)) (hrun : runT I (State.init cfg) ops = some tr) :
+    ∀ e ∈ tr, (∀ f ∈ e.2.1.fdtCurrent, f.bytes ≤ maxFdtSize) ∧
+              (∀ kf ∈ e.2.1.fdtReceivers, kf.2.bytes ≤ maxFdtSize) := by
+  have := runT_inv I (fun s => AllFdt (fun f => f.bytes ≤ maxFdtSize) s) (fun _ => True)
+    (fun s op s' r evs hinv _ h =>
+      (step_all I (fun f => f.bytes ≤ maxFdtSize) s s' op r evs
+        (fun f v hf => by rw [(noteFti_fields f v).2.2.2.2.2.2.2.2.2.2]; exact hf)
+        (fun p now ans id _ _ => by simp [FdtRecv.new, maxFdtSize])
+        (fun p now ans _ _ _ _ f hf => fdtPush_bytes_le I f p now ans hf)
+        (fun f f' hf hu => by rw [updateExpired_bytes hu]; exact hf)
+        h hinv).1)
+    ops (State.init cfg) tr (by constructor <;> (intro f hf; simp [State.init] at hf))
+    (fun _ _ => trivial) hrun
+  intro e he
+  exact ⟨(this e he).1, (this e he).2⟩
 
 /-- **D16, negation witness for the unrepaired tree.**  With the `cleanup_fdt` that was in the tree
     before commit 6bdd56c, every `Receiving` instance survives every cleanup, whatever time has
